@@ -347,7 +347,8 @@ Proof.
     destruct (fresh st n); simpl; [|assumption].
     destruct (admit_pub cf st PsPs s n (fx_f09 fx)) as [[st1 ok] g] eqn:E.
     assert (H1 : all_groups Q st1) by (eapply gw_admit_pub; [exact H| |exact E]; intros Hx; split; [reflexivity|exact Hx]).
-    destruct ok; simpl; same H1.
+    destruct ok; simpl; [destruct listen; simpl|]; try (same H1).
+    destruct (get_or_create cf st s) as [st0 g0] eqn:E0. destruct (gw_get_or_create _ _ _ _ _ H E0) as [H0 _]. same H0.
   - (* EGone *)
     destruct (find_sess n (st_sess st)) as [x|]; simpl; [|assumption].
     destruct (s_gone x); simpl; [assumption|].
@@ -490,7 +491,7 @@ Proof.
 Qed.
 
 (* the pinned tree: StartRtpPub accepts a second input *)
-Definition f09_history : list event := [ERtmpPub 1 1 false; EPsPub 1 2].
+Definition f09_history : list event := [ERtmpPub 1 1 false; EPsPub 1 2 true].
 Lemma single_input_refuted_pinned :
   exists cf h s g, get_group (fst (run pinned_tree cf init_state h)) s = Some g /\ occupied g = 2%nat.
 Proof. exists (mk_config false 0), f09_history, 1. eexists. split; [vm_compute; reflexivity|reflexivity]. Qed.
@@ -501,7 +502,7 @@ Inductive subject := SConn (n : N) | SAtt (s i : N).
 Definition subject_of (e : event) : option subject :=
   match e with
   | ERtmpPub _ n _ | ERtmpSub _ n _ | ERtspPub _ n _ | ERtspSub _ n _ | ERtspPlay n
-  | EFlvSub _ n _ | ETsSub _ n _ | ECustPub _ n | EPsPub _ n | EGone n | EMedia n => Some (SConn n)
+  | EFlvSub _ n _ | ETsSub _ n _ | ECustPub _ n | EPsPub _ n _ | EGone n | EMedia n => Some (SConn n)
   | EKick _ (KConn n) => Some (SConn n)
   | EKick _ (KAtt s i) => Some (SAtt s i)
   | EPullSucc s i | EPullFail s i | EPullDone s i => Some (SAtt s i)
@@ -739,7 +740,10 @@ Proof.
     destruct (fresh st n); simpl; [|apply keeps_here; assumption].
     destruct (admit_pub cf st PsPs s0 n (fx_f09 fx)) as [[st1 ok] g1] eqn:E.
     destruct (foreign_admit_pub _ _ _ _ _ _ _ _ _ _ _ (or_intror (conj H9 eq_refl)) Hg Hin E) as [Hk _].
-    destruct ok; simpl; (eapply keeps_same; [|exact Hk]); reflexivity.
+    destruct ok; simpl; [destruct listen; simpl|]; try ((eapply keeps_same; [|exact Hk]); reflexivity).
+    destruct (get_or_create cf st s0) as [st0 g0] eqn:E0.
+    destruct (keeps_get_or_create _ _ _ _ _ _ _ (keeps_here _ _ _ Hg) E0) as [Hk0 _].
+    eapply keeps_same; [|exact Hk0]. reflexivity.
   - (* EGone *)
     inversion Hx; subst x.
     destruct (find_sess n (st_sess st)) as [y|]; simpl; [|apply keeps_here; assumption].
@@ -817,14 +821,14 @@ Qed.
 (* ---- an input that arrives while another is accepted is refused -------------------------------- *)
 Definition arrival_stream (e : event) : option N :=
   match e with
-  | ERtmpPub s _ _ | ERtspPub s _ _ | ECustPub s _ | EPsPub s _ | EStartPull s _ _ _ | EPullSucc s _ => Some s
+  | ERtmpPub s _ _ | ERtspPub s _ _ | ECustPub s _ | EPsPub s _ _ | EStartPull s _ _ _ | EPullSucc s _ => Some s
   | _ => None
   end.
 
 Definition refusal (e : event) (r : result) : Prop :=
   match e with
   | ERtmpPub _ _ _ | ERtspPub _ _ _ | ECustPub _ _ => r = RRef \/ r = RBad
-  | EPsPub _ _ => r = RCode code_start_rtp_pub_fail RsDup None \/ r = RBad
+  | EPsPub _ _ _ => r = RCode code_start_rtp_pub_fail RsDup None \/ r = RBad
   | EStartPull _ _ _ _ => r = RCode code_start_pull_fail RsDup None
   | EPullSucc _ _ => r = RNone \/ r = RBad
   | _ => False
